@@ -597,16 +597,16 @@ Theorem C16_diff_end_to_end :
 Proof. exact diff_end_to_end. Qed.
 Print Assumptions C16_diff_end_to_end.
 
-(* with C06_nonsame_iff_differ_positional_partial - the property's wording: yaml-diff exits 0 exactly
-   when the two documents are data-equal.  Guards inherited from C06: positional comparison at every
+(* with C06_nonsame_iff_differ_positional - the property's wording: yaml-diff exits 0 exactly
+   when the two documents are data-equal.  Hypotheses inherited from C06: positional comparison at every
    list (--arrays position and --aoh position|dpos, the defaults), real documents (unique scalar
-   keys), no tagged nodes *)
+   keys).  Tagged nodes are included since the repair of C06's finding F1 (values compared as YAML data
+   instead of with Python ==) *)
 Theorem C16_diff_exit_iff_data_equal :
   forall path_eq cfg hm (doc_of : nat -> node) renders estr a lhs rhs li ri l r es report,
     C06Spec.uniform cfg Diff.ArrPosition hm -> hm = Diff.AohPosition \/ hm = Diff.AohDpos ->
     C06Spec.wf_doc (doc_of l) = true -> C06Spec.wf_doc (doc_of r) = true ->
-    C06Spec.untagged (doc_of l) = true -> C06Spec.untagged (doc_of r) = true ->
-    dr_picked (diff_main estr a lhs rhs (LOk [])) = Some (li, ri) ->
+      dr_picked (diff_main estr a lhs rhs (LOk [])) = Some (li, ri) ->
     nth_error (src_stream estr lhs) li = Some l -> nth_error (src_stream estr rhs) ri = Some r ->
     Diff.compare_to path_eq cfg (doc_of l) (doc_of r) = Ok es ->
     Permutation report es ->
@@ -618,14 +618,13 @@ Theorem C16_diff_exit_iff_data_equal :
 Proof. exact diff_exit_iff_data_equal. Qed.
 Print Assumptions C16_diff_exit_iff_data_equal.
 
-(* with C06_nonsame_iff_differ_partial: every uniform option pair without identity keys - exit 0
+(* with C06_nonsame_iff_differ: every uniform option pair without identity keys - exit 0
    exactly when the documents are equal up to what the options disregard *)
 Theorem C16_diff_exit_iff_equiv :
   forall path_eq cfg am hm (doc_of : nat -> node) renders estr a lhs rhs li ri l r es report,
     C06Spec.uniform cfg am hm -> C06Spec.unkeyed hm = true ->
     C06Spec.wf_doc (doc_of l) = true -> C06Spec.wf_doc (doc_of r) = true ->
-    C06Spec.untagged (doc_of l) = true -> C06Spec.untagged (doc_of r) = true ->
-    dr_picked (diff_main estr a lhs rhs (LOk [])) = Some (li, ri) ->
+      dr_picked (diff_main estr a lhs rhs (LOk [])) = Some (li, ri) ->
     nth_error (src_stream estr lhs) li = Some l -> nth_error (src_stream estr rhs) ri = Some r ->
     Diff.compare_to path_eq cfg (doc_of l) (doc_of r) = Ok es ->
     Permutation report es ->
@@ -668,7 +667,6 @@ Proof. vm_compute. repeat split; reflexivity. Qed.
 Example C16_diff_end_to_end_example_hyps :
   C06Spec.uniform e2e_cfg Diff.ArrPosition Diff.AohPosition /\
   C06Spec.wf_doc e2e_doc = true /\ C06Spec.wf_doc e2e_doc2 = true /\
-  C06Spec.untagged e2e_doc = true /\ C06Spec.untagged e2e_doc2 = true /\
   dr_picked (diff_main 9 ex_args_diff (ex_src "l.yaml" [1]) (ex_src "r.yaml" [2]) (LOk [])) = Some (0, 0) /\
   nth_error (src_stream 9 (ex_src "l.yaml" [1])) 0 = Some 1.
 Proof. split; [split; intros nc; reflexivity|]. vm_compute. repeat split; reflexivity. Qed.
